@@ -70,7 +70,6 @@ M = [
  ("C19", "reader-folds-terminator", "file.go", "	if itm != nil { // Checksum excludes terminal nil item\n		f.checksum = f.checksum ^ checksum\n	}", "	f.checksum = f.checksum ^ checksum"),
  ("C19", "comparekv-bigendian", "item.go", "	la := int(binary.LittleEndian.Uint16(a[0:2]))", "	la := int(binary.BigEndian.Uint16(a[0:2]))"),
  ("C19", "writer-uint16-prefix", "item.go", "	binary.BigEndian.PutUint32(buf[0:4], uint32(itm.dataLen))", "	binary.BigEndian.PutUint16(buf[0:2], uint16(itm.dataLen))\n	buf[2], buf[3] = 0, 0"),
- ("C19", "checksum-after-close", "nitro.go", "	defer func() {\n		for _, w := range writers {\n			if w != nil {\n				if cerr := w.Close(); cerr != nil && err == nil {\n					err = cerr\n				}\n			}\n		}\n	}()\n\n	for shard := 0; shard < shards; shard++ {", "	closeWriters := func() {\n		for _, w := range writers {\n			if w != nil {\n				if cerr := w.Close(); cerr != nil && err == nil {\n					err = cerr\n				}\n			}\n		}\n	}\n	defer closeWriters()\n	_ = closeWriters\n\n	for shard := 0; shard < shards; shard++ {"),
  ("C17", "acquire-backoff-no-release", "skiplist/access_barrier.go", "			ab.Release(bs)\n			goto retry", "			goto retry"),
  ("C17", "cursor-close-no-release", "skiplist/iterator.go", "func (it *Iterator) Close() {\n	if it.bs != nil {\n		it.s.barrier.Release(it.bs)\n	}", "func (it *Iterator) Close() {\n	if it.bs != nil {\n	}"),
  ("C13", "index-retry-no-search", "skiplist/skiplist.go", "			s.findPath(itm, insCmp, buf, sts)\n		}", "		}"),
